@@ -5,6 +5,7 @@ import GenlmModel.Proofs.Prio
 import GenlmModel.Proofs.IncCky
 import GenlmModel.Proofs.EarleyQ
 import GenlmModel.Proofs.EarleyNext
+import GenlmModel.Proofs.LimPrefix
 /-! # C04 — grammar language models are the exact left-to-right factorisation -/
 namespace Genlm.Props.C04
 alias normalize_sums_to_one := Genlm.normalize_sums_to_one
@@ -26,4 +27,17 @@ alias cky_lm_correct := Genlm.cky_lm_correct
 /-- Earley language model: the same -/
 alias earley_lm_correct := Genlm.earley_lm_correct
 alias lm_of_add_eos := Genlm.cky_lm_of_addEOS
+
+/-! ## at the limit (ℝ≥0∞): prefix weights as infinite sums over all completions -/
+/-- prefix weight = weight as a complete string + the prefix weights of the one-token extensions -/
+alias prefix_weight_recurrence_limit := Genlm.pw_consistent
+alias eos_prefix_weight_recurrence_limit := Genlm.addEOS_pw_consistent
+/-- EOS receives the weight of the context as a complete string -/
+alias eos_weight_is_string_weight := Genlm.addEOS_pw_eos
+alias empty_context_is_total_weight := Genlm.addEOS_pw_nil
+/-- for a viable context of finite prefix weight the conditionals sum to one -/
+alias conditionals_sum_to_one_limit := Genlm.addEOS_cond_sum_one
+/-- the product of the conditionals along x·EOS is weight(x) / total weight -/
+alias chain_rule_limit := Genlm.addEOS_chain_rule
+alias chain_rule_limit_real := Genlm.addEOS_chain_rule_lm
 end Genlm.Props.C04
